@@ -204,6 +204,100 @@ func c15Units(tier string, seed int64) []Unit {
 			})
 		}})
 	}
+	// many draws in flight on ONE shared recursive generator: two checks are both 60+ levels deep inside the same
+	// Deferred / OneOf / Custom values at the same time (anything a generator value counts, caches or pools per draw in
+	// progress is shared by them), for three shapes of recursion
+	for _, shape := range []string{"Deferred(OneOf(Just,Custom(self)))", "Custom(self) through a package-level variable", "OneOf(Just,Map(Deferred(self)))"} {
+		shape := shape
+		units = append(units, Unit{Name: "C15/deep-recursion-in-flight/" + shape, Run: func(c *Ctx) {
+			mk := func() *rapid.Generator[int] {
+				var self *rapid.Generator[int]
+				switch shape {
+				case "Deferred(OneOf(Just,Custom(self)))":
+					self = rapid.Deferred(func() *rapid.Generator[int] {
+						return rapid.OneOf(rapid.Just(0), rapid.Custom(func(t *rapid.T) int { return 1 + self.Draw(t, "tail") }))
+					})
+				case "Custom(self) through a package-level variable":
+					self = rapid.Custom(func(t *rapid.T) int {
+						if !rapid.Bool().Draw(t, "more") {
+							return 0
+						}
+						return 1 + self.Draw(t, "tail")
+					})
+				default:
+					var inner *rapid.Generator[int]
+					inner = rapid.Deferred(func() *rapid.Generator[int] { return self })
+					self = rapid.OneOf(rapid.Just(0), rapid.Map(inner, func(v int) int { return v + 1 }))
+				}
+				return self
+			}
+			tbq := NewTB("C15")
+			tbq.Quiet = true
+			// a stream that recurses 60..90 levels and then stops: n all-ones words followed by zeros, n found by trying
+			var words []uint64
+			depth := 0
+			for n := 1; n < 400 && words == nil; n++ {
+				w := make([]uint64, n+8)
+				for i := 0; i < n; i++ {
+					w[i] = ^uint64(0)
+				}
+				g := mk()
+				d := -1
+				res := rapid.VerifRunBuf(tbq, w, false, func(t *rapid.T) { d = g.Draw(t, "v") })
+				if res.Kind == rapid.VerifOK && d >= 60 {
+					words, depth = w, d
+				}
+			}
+			if words == nil {
+				c.Violate(Violation{Sig: "C15 deep-recursion harness-found-no-deep-stream shape=" + shape, Detail: "no buffer of ones followed by zeros recurses 60 levels deep"})
+				return
+			}
+			c.R.Bounds = fmt.Sprintf("2 threads, each %d levels deep in the shared generator, preemption bound 1 (quick) / 2", depth)
+			d := &SchedDFS{Bound: 1, MaxSteps: 40000, MaxExecs: 20000}
+			if !quick {
+				d.Bound, d.MaxExecs = 2, 300000
+			}
+			got := make([]int, 2)
+			kinds := make([]int, 2)
+			var shared *rapid.Generator[int]
+			setup := func() {
+				rapid.VerifResetCaches()
+				shared = mk()
+			}
+			body := func() {
+				var hs []*vsync.Handle
+				for i := 0; i < 2; i++ {
+					i := i
+					hs = append(hs, vsync.Go(func() {
+						tb := NewTB("C15")
+						tb.Quiet = true
+						got[i] = -1
+						res := rapid.VerifRunBuf(tb, words, false, func(t *rapid.T) { got[i] = shared.Draw(t, "v") })
+						kinds[i] = res.Kind
+					}))
+				}
+				for _, h := range hs {
+					h.Join()
+				}
+			}
+			d.Explore(c, setup, body, func(ex *vsync.Exec, choices []int) {
+				replay := map[string]any{"engine": "sched", "program": shape, "threads": 2, "schedule": choices, "words_ones": len(words) - 8}
+				if ex.Deadlock != "" {
+					c.Violate(Violation{Sig: "C15 deadlock prog=" + shape, Detail: ex.Deadlock + "\nschedule: " + scheduleString(ex), Replay: replay})
+					return
+				}
+				c.Outcome(fmt.Sprint(got, kinds), preemptions(ex.Points, len(ex.Points)) > 0)
+				for _, rc := range racesOf(ex) {
+					c.Violate(Violation{Sig: "C15 data-race " + rc, Detail: fmt.Sprintf("unordered conflicting accesses: %s\n2 checks deep inside one %s\nschedule: %s", rc, shape, scheduleString(ex)), Replay: replay, Devs: preemptions(ex.Points, len(ex.Points))})
+				}
+				for i := range got {
+					if got[i] != depth || kinds[i] != rapid.VerifOK {
+						c.Violate(Violation{Sig: "C15 draws-differ-from-solo-run prog=" + shape, Detail: fmt.Sprintf("check %d drew %d (%s) while another check was deep inside the same generator; alone it draws %d\nschedule: %s", i, got[i], kindName(kinds[i]), depth, scheduleString(ex)), Replay: replay, Devs: preemptions(ex.Points, len(ex.Points))})
+					}
+				}
+			})
+		}})
+	}
 	nfree := 60
 	if !quick {
 		nfree = 600
@@ -243,6 +337,69 @@ func c15Units(tier string, seed int64) []Unit {
 		}
 		if secondUser != alone {
 			c.Violate(Violation{Sig: "C15 broken-Deferred-changes-between-uses what=second-check-differs", Detail: fmt.Sprintf("alone a check reports %q; as the second user of the shared generator value it reports %q", alone, secondUser), Replay: replay})
+		}
+	}})
+	// a check that FAILS inside a shared generator (its Custom function signals the failure on the T it was given)
+	// leaves nothing behind in the generator value: the next check that uses it reports what it reports alone
+	units = append(units, Unit{Name: "C15/failing-check-then-another-check/sequential-sharing", Run: func(c *Ctx) {
+		for _, kind := range []string{"Errorf", "Fatalf", "Fail", "panic", "Skip"} {
+			limit := 50
+			mk := func() *rapid.Generator[int] {
+				return rapid.Custom(func(t *rapid.T) int {
+					v := rapid.IntRange(0, 99).Draw(t, "v")
+					if v > limit {
+						switch kind {
+						case "Errorf":
+							t.Errorf("value %d above the limit", v)
+						case "Fatalf":
+							t.Fatalf("value %d above the limit", v)
+						case "Fail":
+							t.Fail()
+						case "panic":
+							panic("value above the limit")
+						default:
+							t.Skip("value above the limit")
+						}
+					}
+					return v
+				})
+			}
+			report := func(g *rapid.Generator[int], name string) string {
+				prog := &LazyProgram{Name: name, Base: func(string, string) Beh { return BPass }, Body: func(t *rapid.T, e *Env) {
+					e.cur.Draws = fmt.Sprint(g.Draw(t, "x"), g.Draw(t, "y"))
+				}}
+				env := NewEnv(nil, prog.Base)
+				log := RunCheck(prog, env, Config{Checks: 30, Seed: 7, ShrinkMS: 20, NoFailFile: true, Name: "TestC15Failing"})
+				c.R.Evals++
+				c.R.States++
+				c.R.Transitions += int64(len(env.Invs))
+				v := log.Verdict()
+				first := v.ErrText
+				if i := strings.Index(first, "\n"); i >= 0 {
+					first = first[:i]
+				}
+				var ds []string
+				for _, inv := range env.Invs {
+					ds = append(ds, inv.Draws)
+				}
+				return v.Class + ": " + first + " draws " + strings.Join(ds, ";")
+			}
+			limit = 200
+			alone := report(mk(), "alone")
+			shared := mk()
+			limit = 50
+			failing := report(shared, "failing-first-user")
+			limit = 200
+			second := report(shared, "second-user")
+			c.Outcome(kind+": "+trunc(failing, 60), true)
+			if kind != "Skip" && !strings.HasPrefix(failing, "failed") && !strings.HasPrefix(failing, "panic") {
+				c.Violate(Violation{Sig: "C15 failing-check harness-first-user-did-not-fail kind=" + kind, Detail: failing})
+			}
+			if second != alone {
+				c.Violate(Violation{Sig: "C15 draws-differ-from-solo-run prog=Custom(fails-by-" + kind + ") what=second-check-after-a-failing-one",
+					Detail: fmt.Sprintf("alone a check reports %q; after another check has failed inside the shared generator it reports %q", trunc(alone, 300), trunc(second, 300)),
+					Replay: map[string]any{"engine": "lazyprop", "program": "Custom(fails-by-" + kind + ")"}})
+			}
 		}
 	}})
 	return units
